@@ -728,6 +728,34 @@ func C19EnumSize() int {
 	return len(c19Enum)
 }
 
+// genC19TwoSessions: two sessions of one subscriber use different rating groups with different
+// tariffs; an update of the first has one of its rating / account answers delayed (far below
+// the client time-out), and an update of the second session arrives meanwhile.  Each operation
+// must act on the answers to its own requests only.
+func genC19TwoSessions(g *gen) *Scenario {
+	g.sc.Cfg.Concurrent = true
+	g.sc.Cfg.MaxLatNs = 2_000_000
+	g.sc.Cfg.OpBudgetNs = 120_000_000_000
+	supi := supiN(1)
+	g.sc.Accounts = []Account{{Supi: supi, RG: 1, Quota: 2_000_000_000, UnitCost: "3"}, {Supi: supi, RG: 2, Quota: 2_000_000_000, UnitCost: "7"}}
+	pro := []Op{{ID: g.id(), Kind: "create", Supi: supi, Sess: "s1", Consumer: "smf", ChargingID: 1},
+		{ID: g.id(), Kind: "create", Supi: supi, Sess: "s2", Consumer: "smf", ChargingID: 2}}
+	if g.r.Chance(500) {
+		// both groups already hold a reservation
+		pro = append(pro, Op{ID: g.id(), Kind: "update", Supi: supi, Sess: "s1", Units: []Unit{{RG: 1, Req: 400, Containers: []Container{g.online(0)}}}},
+			Op{ID: g.id(), Kind: "update", Supi: supi, Sess: "s2", Units: []Unit{{RG: 2, Req: 500, Containers: []Container{g.online(0)}}}})
+	}
+	g.sc.Tasks = []Task{{ID: 0, Ops: pro}}
+	u1 := Op{ID: g.id(), Kind: "update", Supi: supi, Sess: "s1", Role: "unfaulted", Units: []Unit{{RG: 1, Req: 1100, Containers: []Container{g.online(100)}}}}
+	u2 := Op{ID: g.id(), Kind: "update", Supi: supi, Sess: "s2", Role: "unfaulted", Units: []Unit{{RG: 2, Req: 1300, Containers: []Container{g.online(100)}}}}
+	g.sc.Faults = []simnet.Fault{{Peer: []string{"rf", "rf", "abmf"}[g.r.Intn(3)], Task: 1, Op: u1.ID, Dir: "ans", Cmd: 0, Nth: 1 + g.r.Intn(3), Kind: simnet.KDelay, DelayNs: g.r.Range(500, 2800) * 1_000_000}}
+	g.sc.Tasks = append(g.sc.Tasks, Task{ID: 1, StartNs: 500_000_000, Ops: []Op{u1}}, Task{ID: 2, StartNs: 500_000_000 + g.r.Range(50, 900)*1_000_000, Ops: []Op{u2}})
+	g.sc.Epilogue = []Op{{ID: g.id(), Kind: "update", Supi: supi, Sess: "s1", Role: "followup", Units: []Unit{{RG: 1, Req: 700, Containers: []Container{g.online(0)}}}},
+		{ID: g.id(), Kind: "update", Supi: supi, Sess: "s2", Role: "followup", Units: []Unit{{RG: 2, Req: 900, Containers: []Container{g.online(0)}}}}}
+	g.sc.Shape = "two sessions, two rating groups, one delayed answer"
+	return g.sc
+}
+
 func GenC19(seed uint64) *Scenario {
 	if c19Enum == nil {
 		buildC19Enum()
@@ -760,6 +788,9 @@ func GenC19(seed uint64) *Scenario {
 	}
 	if idx >= len(c19Enum) && g.r.Chance(200) {
 		return genC19AfterFinalUnit(g)
+	}
+	if idx >= len(c19Enum) && g.r.Chance(200) {
+		return genC19TwoSessions(g)
 	}
 	if idx < len(c19Enum) {
 		p := c19Enum[idx]
